@@ -27,6 +27,7 @@ def decEntry (j : Json) : Except String EntryIn := do
 
 def behaviourOf : String → Behaviour
   | "exit" => .exitsAtOnce | "hang" => .neverRegisters | "cfgfail" => .configFails
+  | "drop" => .neverRegisters    -- hangs up before registering and stays alive: dropped and killed like one that never registers
   | "syncfail" => .syncFails | "die" => .diesLater
   | "idleclose" => .closesWhenIdle | "idleexit" => .exitsWhenIdle | _ => .ok
 
